@@ -8,6 +8,7 @@ import (
 	"go/token"
 	"go/types"
 	"math/big"
+	"sort"
 	"strings"
 )
 
@@ -684,17 +685,91 @@ func (e *Exec) needPopcnt() {
 		return
 	}
 	e.mark("ax:popcnt")
-	e.assumps = append(e.assumps,
-		"(assert (forall ((w (_ BitVec 64))) (! (and (<= 0 (popcnt w)) (<= (popcnt w) 64)) :pattern ((popcnt w)))))",
-		"(assert (= (popcnt #x0000000000000000) 0))",
-		"(assert (= (popcnt #xffffffffffffffff) 64))",
-		"(assert (forall ((w (_ BitVec 64))) (! (= (= (popcnt w) 0) (= w #x0000000000000000)) :pattern ((popcnt w)))))")
+	e.globalAxiom("(assert (forall ((w (_ BitVec 64))) (! (and (<= 0 (popcnt w)) (<= (popcnt w) 64)) :pattern ((popcnt w)))))")
+	e.globalAxiom("(assert (= (popcnt #x0000000000000000) 0))")
+	e.globalAxiom("(assert (= (popcnt #xffffffffffffffff) 64))")
+	e.globalAxiom("(assert (forall ((w (_ BitVec 64))) (! (= (= (popcnt w) 0) (= w #x0000000000000000)) :pattern ((popcnt w)))))")
 	e.note("axiom", "popcnt: 0<=popcnt(w)<=64, popcnt(0)=0, popcnt(~0)=64, popcnt(w)=0 <=> w=0 (lemma library, re-proved per bit by `rvc lemmas`)")
 }
 
-// recursiveSpecCall: recursive spec functions become uninterpreted SMT functions over
-// the heap maps they read, with their defining equation as a quantified axiom.
+// recursiveSpecCall: a recursive spec function becomes an SMT define-fun-rec whose extra
+// parameters are the heap maps its body reads.
 func (e *Exec) recursiveSpecCall(sf *SpecFunc, args []TV, env *SpecEnv) TV {
-	e.specFail("recursive spec function %s: not supported here", sf.Name)
-	return TV{}
+	name := "rf_" + sf.Pkg + "_" + sf.Name
+	sfPkg := e.prog.Pkgs[sf.Pkg].Types
+	rt := e.resolveType(sfPkg, sf.Ret)
+	rsort := e.sortOf(rt)
+	var outTy types.Type = rt
+	if rsort == SInt {
+		outTy = specInt
+	}
+	if e.recInProgress[name] {
+		// recursive occurrence inside the body being translated
+		ts := make([]Term, len(args))
+		for i, a := range args {
+			ts[i] = a.T
+		}
+		return TV{mk(rsort, name+"@self", ts...), outTy}
+	}
+	keys, ok := e.recKeys[name]
+	if !ok || !e.declared["recfun:"+name] {
+		e.recInProgress[name] = true
+		probe := []string{}
+		pst := &State{vars: nil, heap: nil, pc: True, probe: &probe}
+		n := &SpecEnv{vars: map[string]TV{}, oldVars: map[string]TV{}, cur: pst, old: pst, pkg: sf.Pkg, tpkg: sfPkg, depth: env.depth + 1}
+		var formals []string
+		for _, p := range sf.Params {
+			pt := e.resolveType(sfPkg, p.Type)
+			ps := e.sortOf(pt)
+			n.vars[p.Name] = TV{Term{"p!" + p.Name, ps}, pt}
+			formals = append(formals, fmt.Sprintf("(p!%s %s)", p.Name, ps))
+		}
+		body := e.tr(sf.Body, n)
+		delete(e.recInProgress, name)
+		sort.Strings(probe)
+		keys = probe
+		e.recKeys[name] = keys
+		var hargs string
+		for _, k := range keys {
+			formals = append(formals, fmt.Sprintf("(hp!%s %s)", k, e.heapMetas[k].sort))
+			hargs += " hp!" + k
+		}
+		// recursive occurrences pass the heap formals through
+		txt := body.T.S
+		txt = rewriteSelfCalls(txt, name, hargs)
+		e.rawDecl("recfun:"+name, fmt.Sprintf("(define-fun-rec %s (%s) %s %s)", name, strings.Join(formals, " "), rsort, txt))
+	}
+	ts := make([]Term, 0, len(args)+len(keys))
+	for _, a := range args {
+		ts = append(ts, a.T)
+	}
+	for _, k := range keys {
+		ts = append(ts, e.heapGet(env.cur, k))
+	}
+	return TV{mk(rsort, name, ts...), outTy}
+}
+
+// rewriteSelfCalls turns "(name@self a b)" into "(name a b <heap formals>)".
+func rewriteSelfCalls(txt, name, hargs string) string {
+	marker := "(" + name + "@self"
+	for {
+		i := strings.Index(txt, marker)
+		if i < 0 {
+			return txt
+		}
+		// find the matching close paren
+		depth := 0
+		j := i
+		for ; j < len(txt); j++ {
+			if txt[j] == '(' {
+				depth++
+			} else if txt[j] == ')' {
+				depth--
+				if depth == 0 {
+					break
+				}
+			}
+		}
+		txt = txt[:i] + "(" + name + txt[i+len(marker):j] + hargs + txt[j:]
+	}
 }
